@@ -105,6 +105,16 @@ func walkList(start *dt.Element[int], next func(*dt.Element[int]) *dt.Element[in
 	}
 }
 
+// e.In(l), "P" if the call panics (e may be nil)
+func elemIn(e *dt.Element[int], l *dt.List[int]) (out string) {
+	defer func() {
+		if recover() != nil {
+			out = "P"
+		}
+	}()
+	return bit(e.In(l))
+}
+
 func (st *c16st) dump() string {
 	lp := []string{}
 	for _, l := range st.lists {
@@ -137,13 +147,14 @@ func (st *c16st) dump() string {
 	}
 	ep := []string{}
 	for _, e := range st.elems {
-		if e == nil {
-			ep = append(ep, "nil")
-			continue
-		}
 		ins := ""
 		for _, l := range st.lists {
-			ins += bit(e.In(l))
+			ins += elemIn(e, l)
+		}
+		if e == nil {
+			// In is documented for a nil element ("Returns false when the element is nil")
+			ep = append(ep, "nil/"+ins)
+			continue
 		}
 		ep = append(ep, fmt.Sprintf("%s%d/%s", bit(e.Ok()), e.Value(), ins))
 	}
